@@ -120,7 +120,7 @@ func init() {
 		var t tokens
 		var serveRes chan error
 		var extra []chan error // Serve calls made while the server was already serving and that did not return at once
-		var lis net.Listener
+		var lis, lis2 net.Listener
 		l := k.ints
 		for len(l) > 0 {
 			switch l[0] {
@@ -158,13 +158,18 @@ func init() {
 				if lerr != nil {
 					return append(t, 996)
 				}
-				go func() { ch <- s.Serve([]net.Listener{nl}) }()
+				nl2, lerr2 := net.Listen("tcp", "127.0.0.1:0")
+				if lerr2 != nil {
+					return append(t, 996)
+				}
+				go func() { ch <- s.Serve([]net.Listener{nl, nl2}) }()
 				if serveRes != nil {
 					// Serve while already serving: it must come back with an error; if it stays (serving a second
 					// time) keep it so that the Close below waits for it too
 					select {
 					case err := <-ch:
 						nl.Close()
+						nl2.Close()
 						if err != nil && !errors.Is(err, bgp.ErrServerClosed) {
 							t.add(5, 3)
 						} else {
@@ -195,7 +200,7 @@ func init() {
 				}
 				if started {
 					serveRes = ch
-					lis = nl
+					lis, lis2 = nl, nl2
 					t.add(5, 1)
 				} else if errors.Is(early, bgp.ErrServerClosed) {
 					t.add(5, 0)
@@ -233,16 +238,26 @@ func init() {
 					lis.Close()
 					select {
 					case err := <-serveRes:
-						if err != nil && !errors.Is(err, bgp.ErrServerClosed) {
+						// Serve has returned: every listener it was given must be closed (nothing accepts any more)
+						still := false
+						if c, derr := net.DialTimeout("tcp", lis2.Addr().String(), 300*time.Millisecond); derr == nil {
+							still = true
+							c.Close()
+						}
+						switch {
+						case still:
+							t.add(7, 96)
+						case err != nil && !errors.Is(err, bgp.ErrServerClosed):
 							t.add(7, 1)
-						} else {
+						default:
 							t.add(7, 98)
 						}
+						lis2.Close()
 					case <-time.After(5 * time.Second):
 						t.add(7, 97)
 					}
 					serveRes = nil
-					lis = nil
+					lis, lis2 = nil, nil
 				} else {
 					t.add(7, 0)
 				}
